@@ -150,60 +150,70 @@ def check(prog, r):
             r.violation('%s:local' % name, fn.name, LIST, fn.line,
                         '%s reaches %d links away from its arguments: the three-node shapes no longer cover it' % (name, deep))
             continue
-        pn = [p['name'] for p in fn.params]
-        cases = 0
-        bad = None
-        for n in range(0, 4):
-            nodes = list(range(n))
-            for hpos in range(max(n, 1)):
-                seq = nodes[hpos:] + nodes[:hpos]         # list order starting at the head
-                head = seq[0] if seq else None
-                if name == '_dbus_list_unlink':
-                    if n == 0:
-                        continue
-                    for victim in nodes:
-                        heap = ring(seq)
-                        try:
-                            h2, head2 = interp(fn, {pn[0]: 'LISTP', pn[1]: victim}, heap, head)
-                        except Stuck as e:
-                            bad = bad or ('shape n=%d head=%d link=%d: %s' % (n, head, victim, e))
-                            continue
-                        cases += 1
-                        rest = [x for x in seq if x != victim]
-                        if victim == head and rest:
-                            i = seq.index(victim)
-                            rest = seq[i + 1:] + seq[:i]
-                        ok = is_ring(h2, head2, rest) and h2[victim] == {'next': None, 'prev': None}
-                        if not ok:
-                            bad = bad or ('removing node %d from the list %s (head %s) leaves head=%s, links=%s; '
-                                          'expected the list %s and a detached link' % (
-                                              victim, seq, head, head2, {k: (v['prev'], v['next']) for k, v in h2.items()}, rest))
-                else:
-                    anchors = nodes if n else [None]
-                    for anchor in anchors:
-                        heap = ring(seq)
-                        heap[NEW] = {'next': None, 'prev': None}
-                        try:
-                            h2, head2 = interp(fn, {pn[0]: 'LISTP', pn[1]: anchor, pn[2]: NEW}, heap, head)
-                        except Stuck as e:
-                            bad = bad or ('shape n=%d head=%s anchor=%s: %s' % (n, head, anchor, e))
-                            continue
-                        cases += 1
+        plist = [p['name'] for p in fn.params if '**' in (p.get('t') or '')]
+        pothers = [p['name'] for p in fn.params if '**' not in (p.get('t') or '')]
+        if len(plist) != 1:
+            raise AnalysisBroken('%s: list head parameter not found' % name)
+
+        def attempt(pn):
+            cases = 0
+            bad = None
+            for n in range(0, 4):
+                nodes = list(range(n))
+                for hpos in range(max(n, 1)):
+                    seq = nodes[hpos:] + nodes[:hpos]         # list order starting at the head
+                    head = seq[0] if seq else None
+                    if name == '_dbus_list_unlink':
                         if n == 0:
-                            want = [NEW]
-                        else:
-                            i = seq.index(anchor)
-                            if name == 'link_before':
-                                want = seq[:i] + [NEW] + seq[i:]
-                                if anchor == head:
-                                    want = [NEW] + seq       # inserting before the head makes the link the new head
+                            continue
+                        for victim in nodes:
+                            heap = ring(seq)
+                            try:
+                                h2, head2 = interp(fn, {pn[0]: 'LISTP', pn[1]: victim}, heap, head)
+                            except Stuck as e:
+                                bad = bad or ('shape n=%d head=%d link=%d: %s' % (n, head, victim, e))
+                                continue
+                            cases += 1
+                            rest = [x for x in seq if x != victim]
+                            if victim == head and rest:
+                                i = seq.index(victim)
+                                rest = seq[i + 1:] + seq[:i]
+                            ok = is_ring(h2, head2, rest) and h2[victim] == {'next': None, 'prev': None}
+                            if not ok:
+                                bad = bad or ('removing node %d from the list %s (head %s) leaves head=%s, links=%s; '
+                                              'expected the list %s and a detached link' % (
+                                                  victim, seq, head, head2, {k: (v['prev'], v['next']) for k, v in h2.items()}, rest))
+                    else:
+                        anchors = nodes if n else [None]
+                        for anchor in anchors:
+                            heap = ring(seq)
+                            heap[NEW] = {'next': None, 'prev': None}
+                            try:
+                                h2, head2 = interp(fn, {pn[0]: 'LISTP', pn[1]: anchor, pn[2]: NEW}, heap, head)
+                            except Stuck as e:
+                                bad = bad or ('shape n=%d head=%s anchor=%s: %s' % (n, head, anchor, e))
+                                continue
+                            cases += 1
+                            if n == 0:
+                                want = [NEW]
                             else:
-                                want = seq[:i + 1] + [NEW] + seq[i + 1:]
-                        if not is_ring(h2, head2, want):
-                            bad = bad or ('inserting %s node %s into the list %s (head %s) gives head=%s, (prev,next)=%s; '
-                                          'expected the circular list %s' % (
-                                              'before' if name == 'link_before' else 'after', anchor, seq, head, head2,
-                                              {k: (v['prev'], v['next']) for k, v in h2.items()}, want))
+                                i = seq.index(anchor)
+                                if name == 'link_before':
+                                    want = seq[:i] + [NEW] + seq[i:]
+                                    if anchor == head:
+                                        want = [NEW] + seq       # inserting before the head makes the link the new head
+                                else:
+                                    want = seq[:i + 1] + [NEW] + seq[i + 1:]
+                            if not is_ring(h2, head2, want):
+                                bad = bad or ('inserting %s node %s into the list %s (head %s) gives head=%s, (prev,next)=%s; '
+                                              'expected the circular list %s' % (
+                                                  'before' if name == 'link_before' else 'after', anchor, seq, head, head2,
+                                                  {k: (v['prev'], v['next']) for k, v in h2.items()}, want))
+
+            return cases, bad
+        orders = [pothers] if len(pothers) == 1 else [pothers, pothers[::-1]]
+        results = [attempt([plist[0]] + o) for o in orders]
+        cases, bad = min(results, key=lambda cb: (cb[1] is not None, -cb[0]))
         key = '%s:keeps-the-ring' % name
         if cases < 4:
             raise AnalysisBroken('%s: only %d shapes could be interpreted (%s)' % (name, cases, bad))
